@@ -493,6 +493,86 @@ impl Family for ClientStatements {
     }
 }
 
+/// routing when the transport fails: conversations that use every route (INIT_DB, USE, SELECT @@,
+/// field list, query, PREPARE, long data, EXECUTE, CLOSE, PING), with an error once and from then
+/// on at every transport operation of the undisturbed run. Whatever callbacks are made must be a
+/// prefix of the model's log - a failure must not turn one route into another, repeat a callback
+/// or invent one.
+struct RoutingUnderFaults {
+    convs: Vec<(Vec<Vec<u8>>, usize, Vec<Cb>)>,
+}
+impl RoutingUnderFaults {
+    fn new() -> Self {
+        let blk = exec_block(&[ExecParam { ty: 0xfc, unsigned: false, wire: None, long: true }], true);
+        let lists: Vec<Vec<Vec<u8>>> = vec![
+            vec![with_byte(COM_INIT_DB, b"db1"), with_byte(COM_QUERY, b"USE `db2`"), with_byte(COM_QUERY, b"SELECT @@max_allowed_packet"), with_byte(COM_FIELD_LIST, b"t\0"), with_byte(COM_QUERY, b"SELECT 1"), vec![COM_PING], with_byte(COM_QUERY, b"select @@version_comment limit 1"), with_byte(COM_QUERY, b"use db3;"), with_byte(COM_QUERY, b"tail")],
+            vec![with_byte(COM_STMT_PREPARE, b"id=1 p=1 c=1"), cmd_long(1, 0, b"abc"), cmd_execute(1, 0, 1, &blk), with_byte(COM_QUERY, b"SELECT @@max_allowed_packet"), with_byte(COM_STMT_PREPARE, b"id=2 p=0"), cmd_execute(2, 0, 1, &[]), cmd_close(1), vec![COM_PING], cmd_close(2), with_byte(COM_QUERY, b"tail")],
+            vec![with_byte(COM_QUERY, b"SELECT @@max_allowed_packet"), with_byte(COM_QUERY, b"SELECT @@max_allowed_packet"), with_byte(COM_QUERY, b"USE a"), with_byte(COM_QUERY, b"USE b"), with_byte(COM_INIT_DB, b"c"), with_byte(COM_QUERY, b"tail")],
+        ];
+        let mut convs = Vec::new();
+        for cmds in lists {
+            let conv = Conv::new(cmds.iter().map(|c| ClientCmd::new(c.clone())).collect());
+            let stream = Arc::new(conv.stream().bytes);
+            let mut sim = sim_for(&stream, vec![]);
+            sim.log_ops = true;
+            let o = run_conn(sim, ConnCfg::new(std_behave()));
+            let v = expect_variants(&cmds);
+            assert_eq!(v.len(), 1, "VERIF harness bug: these conversations have one accepted behaviour");
+            convs.push((cmds, o.sim.ops.len(), v[0].log.clone()));
+        }
+        RoutingUnderFaults { convs }
+    }
+    fn case(&self, idx: u64) -> (usize, usize, bool) {
+        let mut r = idx;
+        for (i, (_, ops, _)) in self.convs.iter().enumerate() {
+            let n = *ops as u64 * 2;
+            if r < n {
+                return (i, (r / 2) as usize, r % 2 == 1);
+            }
+            r -= n;
+        }
+        unreachable!()
+    }
+}
+impl Family for RoutingUnderFaults {
+    fn name(&self) -> String {
+        "routing-under-a-fault-at-every-transport-operation".into()
+    }
+    fn len(&self) -> u64 {
+        self.convs.iter().map(|c| c.1 as u64 * 2).sum()
+    }
+    fn run(&self, idx: u64, st: &mut Stats) -> Result<(), Violation> {
+        let (ci, at, persistent) = self.case(idx);
+        let (cmds, _, want) = &self.convs[ci];
+        st.nontrivial += 1;
+        st.bump("routing_under_faults");
+        let conv = Conv::new(cmds.iter().map(|c| ClientCmd::new(c.clone())).collect());
+        let stream = Arc::new(conv.stream().bytes);
+        let mut sim = sim_for(&stream, vec![]);
+        sim.log_ops = true;
+        sim.fault = Some(crate::sim::Fault { at_op: at, kind: crate::sim::FaultKind::Error(std::io::ErrorKind::Other), persistent });
+        let o = run_conn(sim, ConnCfg::new(std_behave()));
+        st.transitions += cmds.len() as u64;
+        let what = format!("conversation {}, an error {} at transport operation {}", ci, if persistent { "from" } else { "once" }, at);
+        if let ConnResult::Panic(l, m) = &o.res {
+            return Err(Violation::new(panic_key(l, m), format!("{}: run_on panicked at {}: {}", what, l, m)));
+        }
+        let got: Vec<Cb> = o.log.iter().map(|x| x.1.clone()).collect();
+        if got.is_empty() {
+            return Ok(());
+        }
+        let got = &got[1..];
+        if let Some(i) = (0..got.len()).find(|i| want.get(*i) != Some(&got[*i])) {
+            return Err(Violation::new("routing-differs-under-a-fault", format!("{}: callback {} is {}, the model expects {}", what, i, cb_short(&got[i]), want.get(i).map(cb_short).unwrap_or_else(|| "no further callback".into()))));
+        }
+        Ok(())
+    }
+    fn describe(&self, idx: u64) -> J {
+        let (ci, at, persistent) = self.case(idx);
+        json!({"conversation": ci, "fault_at_operation": at, "persistent": persistent})
+    }
+}
+
 pub fn build(quick: bool) -> Check {
     let alpha = alphabet();
     let n = alpha.len();
@@ -535,6 +615,7 @@ pub fn build(quick: bool) -> Check {
     families.push(Box::new(IdPairs));
     families.push(Box::new(Utf8Offsets));
     families.push(Box::new(ClientStatements));
+    families.push(Box::new(RoutingUnderFaults::new()));
     Check {
         id: "C02",
         level: "model_checking",
